@@ -4,6 +4,9 @@ R-C09-2: in every FMG mode the level-0 iterate after initializeSolution() equals
          oracle (coarsest direct solve, then per level: interpolate, k cycles) and contains no stale leaf.
 R-C09-3: f_l = D_l(Inj^l f_raw) on every level the mode reads; allocation/initialisation tables agree with
          what the start-up reads (no unallocated vector, no uninitialised operator).
+R-C09-4: the same on a previously used solver object (setup(); solve(); solve()): every work vector and every member
+         the first solve wrote is history; the second start vector must be the same term and no branch of the
+         start-up may read history.
 R-C09-1: FMG interpolation weight tables (see tab_transfer) — copy at coarse nodes, sum 1, cubic exactness.
 """
 import itertools
@@ -31,6 +34,18 @@ def fmg_modes(tier):
             continue
         yield {"L": L, "FMG": True, "FMG_iterations": k, "FMG_cycle": kind, "extrapolation": ext, "cycle": 0, "nu1": n1, "nu2": n2,
                "max_iterations": 0, "abs_tol": True, "rel_tol": True, "exact": False}
+
+
+def reuse_modes(tier):
+    if tier == "quick":
+        Ls, ks, exts, kinds = [2, 3], [1], [0, 1, 2, 3], [0, 2]
+    else:
+        Ls, ks, exts, kinds = [2, 3, 4], [0, 1, 2], [0, 1, 2, 3], [0, 1, 2]
+    for L, k, ext, kind in itertools.product(Ls, ks, exts, kinds):
+        if k == 0 and kind != 0:
+            continue
+        yield {"L": L, "FMG": True, "FMG_iterations": k, "FMG_cycle": kind, "extrapolation": ext, "cycle": 0, "nu1": 1, "nu2": 1,
+               "max_iterations": 0, "abs_tol": True, "rel_tol": True, "exact": False, "norm": 0}
 
 
 def main(tier):
@@ -94,6 +109,35 @@ def main(tier):
                              ("\n    (depends on history: %s)" % ", ".join(sorted(set(show(a) for a in bad)))) if bad else ""),
                          detail=dom.oplog[-40:])
     ck.extra["modes"] = n
+    # ---- R-C09-4: the same start vector on a previously used solver object
+    ck.rule("R-C09-4", "setup(); solve(); solve(): the FMG start vector of the second solve is the same nested-iteration term, no start-up branch depends on history", floor=8)
+    for fn in prog.fns("GMGPolar::solve"):
+        ck.analysed(fn)
+    for mode in reuse_modes(tier):
+        what = "reused solver: L=%d k=%d fmg_cycle=%s ext=%s" % (mode["L"], mode["FMG_iterations"], KN[mode["FMG_cycle"]], EXT[mode["extrapolation"]])
+        ck.instance("R-C09-4", what)
+        L = mode["L"]
+        ext = mode["extrapolation"] != 0
+        fgs = mode["extrapolation"] in (0, 2, 3)
+        want = Oracle(L, mode["nu1"], mode["nu2"], ext, fgs, setup_rhs(L, True, ext)).fmg(mode["FMG_cycle"], mode["FMG_iterations"])
+        probs = []
+        site = ir.locstr(prog.fn("GMGPolar::initializeSolution"))
+        for o in sr.scenario_reuse(prog, mode):
+            for st, cond, outc, fnq in o.choice_log:
+                if sr.scalar_has_stale(cond):
+                    probs.append("the branch at %s (in %s) of the second solve's start-up is decided by data left by the previous solve: %s" % (st, fnq, show(cond)[:200]))
+                    site = st
+            if o.throws:
+                probs.append("second solve throws %s at %s" % (o.throws.what, o.throws.site))
+            elif o.solution is not want:
+                bad = has_kind(o.solution, ("stale", "clob")) if o.solution is not None else []
+                probs.append("start vector of the second solve is %s, nested iteration gives %s%s" % (
+                    show(o.solution)[:300] if o.solution is not None else None, show(want)[:300],
+                    (" (depends on history: %s)" % ", ".join(sorted(set(show(a) for a in bad)))[:200]) if bad else ""))
+        if probs:
+            ck.violation("R-C09-4", "reused-solver:start-vector", site, "%s: %s" % (what, "; ".join(sorted(set(probs)))[:1500]))
+        else:
+            ck.ok("R-C09-4", what)
     # ---- TAB part (FMG interpolation weights) is attached when available
     try:
         from gmg import tab_transfer
